@@ -334,6 +334,12 @@ loop:
 		}
 	}
 
+	// Once the context is cancelled the operators end their streams early (the exchange
+	// operators drain and close their buffers): what was collected is not the result.
+	if err := ctx.Err(); err != nil {
+		return newErrResult(ret, err)
+	}
+
 	// For range Query we expect always a Matrix value type.
 	if q.t == RangeQuery {
 		resultMatrix := make(promql.Matrix, 0, len(series))
